@@ -23,6 +23,7 @@ import (
 	"os"
 	"path/filepath"
 	"runtime"
+	"runtime/debug"
 	"sort"
 	"strings"
 )
@@ -184,7 +185,12 @@ func runQuiet(p *Prog, pc *propCheck) (c *Ctx, panicked any) {
 	c = NewCtx(p, pc.ID, "thorough")
 	c.quiet = true
 	func() {
-		defer func() { panicked = recover() }()
+		defer func() {
+			panicked = recover()
+			if panicked != nil && os.Getenv("BUFSA_FULL") != "" {
+				debug.PrintStack()
+			}
+		}()
 		pc.Run(c)
 		genericPack(c)
 	}()
